@@ -34,20 +34,20 @@ def handleChallengePhase1 : List String := ["secretKeyMgr.GenerateChallenge", "c
 def handleChallengePhase2 : List String := ["conn.GetPendingChallenge", "bruteForceProtector.RecordFailure", "conn.ClearPendingChallenge", "secretKeyMgr.VerifyResponse", "bruteForceProtector.RecordFailure", "bruteForceProtector.RecordSuccess", "conn.SetClientID", "conn.SetAuthenticated", "updateClientRuntimeState"]
 def handleFirstConnection : List String := ["cloudControl.GenerateAnonymousCredentials", "bruteForceProtector.RecordFailure", "bruteForceProtector.RecordSuccess", "conn.SetClientID", "conn.SetAuthenticated", "updateClientRuntimeState"]
 def handleHandshake : List String := ["json.Unmarshal", "getControlConnectionByConnID", "getConnectionByConnID", "NewControlConnection", "RegisterControlConnection", "getControlConnectionByConnID", "getConnectionByConnID", "NewControlConnection", "RegisterControlConnection", "authHandler.HandleHandshake", "sendHandshakeResponse", "sendHandshakeResponse", "clientRegistry.GetByClientID", "clientRegistry.Remove", "clientRegistry.UpdateAuth", "getConnectionByConnID", "getConnectionByConnID"]
-def removeConnectionLocked : List String := ["Stream.Close", "delete", "delete"]
+def removeConnectionLocked : List String := ["Stream.Close", "delete"]
 end Skel
 
 namespace Cond
 def HandleHandshake : List String := ["remoteAddr != nil", "h.ipManager != nil", "allowed, reason := h.ipManager.IsAllowed(ip); !allowed", "h.bruteForceProtector != nil", "banned, reason := h.bruteForceProtector.IsBanned(ip); banned", "req.ClientID == 0 && h.rateLimiter != nil", "!h.rateLimiter.AllowIP(ip)", "isFirstConnection := req.ClientID == 0 && (req.Token == \"new-client\" || strings.HasPrefix(req.Token, \"anonymous:\"))", "isFirstConnection", "err != nil || config == nil", "h.bruteForceProtector != nil", "config.IsExpired()", "req.ChallengeResponse == \"\""]
-def IsAllowed : List String := ["m.isInList(ip, m.whitelist)", "record := m.findInList(ip, m.blacklist); record != nil", "!record.ExpiresAt.IsZero() && time.Now().After(record.ExpiresAt)"]
-def IsBanned : List String := ["!exists", "!record.ExpiresAt.IsZero() && time.Now().After(record.ExpiresAt)"]
+def IsAllowed : List String := ["m.isInList(ip, m.whitelist)", "record := m.findInList(ip, m.blacklist); record != nil", "record.isExpired()"]
+def IsBanned : List String := ["!exists", "record.isExpired()"]
 def RecordFailure : List String := ["!exists", "totalCount >= p.config.PermanentBanAt", "recentFailures >= p.config.MaxFailures"]
 def UpdateAuth : List String := ["!exists"]
 def VerifyResponse : List String := ["err != nil"]
 def handleChallengePhase1 : List String := ["h.secretKeyMgr == nil", "config.SecretKeyEncrypted == \"\"", "err != nil"]
 def handleChallengePhase2 : List String := ["challenge == \"\"", "h.bruteForceProtector != nil", "!h.secretKeyMgr.VerifyResponse(config.SecretKeyEncrypted, challenge, req.ChallengeResponse)", "h.bruteForceProtector != nil", "h.bruteForceProtector != nil"]
-def handleHandshake : List String := ["s.authHandler == nil", "len(connPacket.Packet.Payload) > 0", "err := json.Unmarshal(connPacket.Packet.Payload, req); err != nil", "isControlConnection := req.ConnectionType != \"tunnel\"", "req.ConnectionType == \"\"", "isControlConnection", "existingConn != nil", "conn == nil", "enforcedProtocol == \"\"", "conn.RawConn != nil", "existingConn != nil", "conn == nil", "enforcedProtocol == \"\"", "conn.RawConn != nil", "err != nil", "err := s.sendHandshakeResponse(clientConn, resp); err != nil", "isControlConnection && clientConn.IsAuthenticated() && clientConn.GetClientID() > 0", "oldConn != nil && oldConn.GetConnID() != clientConn.GetConnID()", "s.connStateStore != nil", "err := s.connStateStore.UnregisterConnection(s.Ctx(), oldConn.GetConnID()); err != nil", "concreteConn, ok := clientConn.(*ControlConnection); ok", "err := s.clientRegistry.UpdateAuth(concreteConn.ConnID, clientConn.GetClientID(), concreteConn.UserID); err != nil", "s.connStateStore != nil", "conn != nil && conn.Protocol != \"\"", "err := s.connStateStore.RegisterConnection(s.Ctx(), stateInfo); err != nil", "conn != nil && conn.Stream != nil", "handshakeHandler, ok := reader.(interface{ OnHandshakeComplete(clientID int64) }); ok", "isControlConnection && clientConn.IsAuthenticated() && clientConn.GetClientID() > 0"]
-def removeConnectionLocked : List String := ["conn == nil", "conn.Stream != nil", "conn.Authenticated && conn.ClientID > 0", "existingConn, exists := r.clientIDMap[conn.ClientID]; exists && existingConn.ConnID == conn.ConnID"]
+def handleHandshake : List String := ["s.authHandler == nil", "len(connPacket.Packet.Payload) > 0", "err := json.Unmarshal(connPacket.Packet.Payload, req); err != nil", "isControlConnection := req.ConnectionType != \"tunnel\"", "req.ConnectionType == \"\"", "isControlConnection", "existingConn != nil", "conn == nil", "enforcedProtocol == \"\"", "conn.RawConn != nil", "existingConn != nil", "conn == nil", "enforcedProtocol == \"\"", "conn.RawConn != nil", "err != nil", "concreteConn, ok := clientConn.(*ControlConnection); ok", "err := s.sendHandshakeResponse(clientConn, resp); err != nil", "isControlConnection && clientConn.IsAuthenticated() && clientConn.GetClientID() > 0", "oldConn != nil && oldConn.GetConnID() != clientConn.GetConnID()", "s.connStateStore != nil", "err := s.connStateStore.UnregisterConnection(s.Ctx(), oldConn.GetConnID()); err != nil", "concreteConn, ok := clientConn.(*ControlConnection); ok", "err := s.clientRegistry.UpdateAuth(concreteConn.ConnID, clientConn.GetClientID(), concreteConn.UserID); err != nil", "s.connStateStore != nil", "conn != nil && conn.Protocol != \"\"", "err := s.connStateStore.RegisterConnection(s.Ctx(), stateInfo); err != nil", "conn != nil && conn.Stream != nil", "handshakeHandler, ok := reader.(interface{ OnHandshakeComplete(clientID int64) }); ok", "isControlConnection && clientConn.IsAuthenticated() && clientConn.GetClientID() > 0"]
+def removeConnectionLocked : List String := ["conn == nil", "conn.Stream != nil"]
 end Cond
 
 end Gen
